@@ -46,6 +46,8 @@
 #include "DelayPools.h"
 #endif
 
+#include <algorithm>
+#include <limits>
 #include <memory>
 
 CBDATA_CLASS_INIT(clientReplyContext);
@@ -1292,8 +1294,10 @@ clientReplyContext::buildReplyHeader()
                 hdr->putExt("X-Cache-Age", age);
             }
         } else if (http->storeEntry()->timestamp <= squid_curtime) {
-            hdr->putInt(Http::HdrType::AGE,
-                        squid_curtime - http->storeEntry()->timestamp);
+            // RFC 9111 section 5.1: an age too large to represent is sent as the
+            // largest representable one (putInt() takes, and asserts, a non-negative int)
+            const time_t age = squid_curtime - http->storeEntry()->timestamp;
+            hdr->putInt(Http::HdrType::AGE, static_cast<int>(std::min<time_t>(age, std::numeric_limits<int>::max())));
         }
     }
 
